@@ -11,10 +11,10 @@ import (
 
 func init() { factFns["C13"] = factsC13 }
 
-// lockSkeleton lists, in source order, the synchronisation and call-out statements of a function:
+// c13LockSkeleton lists, in source order, the synchronisation and call-out statements of a function:
 // Lock/Unlock/RLock/RUnlock on any mutex, go statements, channel sends/receives/close, plus the
 // calls whose callee text contains one of `extra`.
-func lockSkeleton(rel, recv, name string, extra ...string) string {
+func c13LockSkeleton(rel, recv, name string, extra ...string) string {
 	f, fd := funcDecl(rel, recv, name)
 	if fd == nil {
 		return "<missing " + rel + ":" + recv + "." + name + ">"
@@ -59,9 +59,9 @@ func lockSkeleton(rel, recv, name string, extra ...string) string {
 }
 
 func factsC13() {
-	emitStr("f_sig_addSignalUser", lockSkeleton("bus/signal.go", "signalHandler", "addSignalUser", "MakeHandler", "RemoveHandler"))
-	emitStr("f_sig_removeSignalUser", lockSkeleton("bus/signal.go", "signalHandler", "removeSignalUser", "RemoveHandler"))
-	emitStr("f_sig_UpdateSignal", lockSkeleton("bus/signal.go", "signalHandler", "UpdateSignal", "replyEvent", "removeSignalUser"))
+	emitStr("f_sig_addSignalUser", c13LockSkeleton("bus/signal.go", "signalHandler", "addSignalUser", "MakeHandler", "RemoveHandler"))
+	emitStr("f_sig_removeSignalUser", c13LockSkeleton("bus/signal.go", "signalHandler", "removeSignalUser", "RemoveHandler"))
+	emitStr("f_sig_UpdateSignal", c13LockSkeleton("bus/signal.go", "signalHandler", "UpdateSignal", "replyEvent", "removeSignalUser"))
 	emitStr("f_sig_addSignalUser_text", normText("bus/signal.go", "signalHandler", "addSignalUser"))
 	emitStr("f_sig_removeSignalUser_text", normText("bus/signal.go", "signalHandler", "removeSignalUser"))
 	emitStr("f_sig_UpdateSignal_text", normText("bus/signal.go", "signalHandler", "UpdateSignal"))
@@ -71,7 +71,7 @@ func factsC13() {
 	emitStr("f_proxy_SubscribeID_text", normText("bus/proxy.go", "proxy", "SubscribeID"))
 	emitStr("f_client_Subscribe_text", normText("bus/client.go", "client", "Subscribe"))
 	emitStr("f_client_State_text", normText("bus/client.go", "client", "State"))
-	emitStr("f_client_State", lockSkeleton("bus/client.go", "client", "State"))
+	emitStr("f_client_State", c13LockSkeleton("bus/client.go", "client", "State"))
 	// capacity of the subscription queue: the literal in make(chan *net.Message, N) of client.Subscribe
 	capQ := 0
 	if f, fd := funcDecl("bus/client.go", "client", "Subscribe"); fd != nil {
